@@ -200,6 +200,12 @@ def mode_unit(args):
             parsed.append(fmtlang.parse(s.format))
         except Exception:
             parsed.append(None)
+    pfx_words = []
+    for k, s in enumerate(order):
+        if s.pfx is True and parsed[k] is not None and len(pfx_words) < 4:
+            w0 = specwords.words(parsed[k], False)[0].to_bytes(parsed[k].nbits // 8, bo)
+            if w0 not in pfx_words:
+                pfx_words.append(w0)
     for k, s in enumerate(order):
         if k % nshards != shard:
             continue
@@ -223,6 +229,13 @@ def mode_unit(args):
         if isa in ("x86", "x64"):
             for p in (b"\x66", b"\xf3", b"\x2e", b"\x48") if not full else specwords.X86_PREFIXES_T[1:]:
                 compare(p + hb + b"\x00" * 10, "prefixed", s.format)
+        # any ISA with prefix specifications: two prefixes in front of the witness, input longer than maxlen
+        # (the bytes after a prefix are not limited to the maxlen window of the first call)
+        if pfx_words and not s.pfx:
+            for p in pfx_words[:3]:
+                for q in pfx_words[:2]:
+                    compare(p + q + hb + b"\x00" * d.maxlen, "prefixed-long", s.format)
+            compare(pfx_words[0] * (d.maxlen // 2 + 1) + hb + b"\x00" * d.maxlen, "prefixed-long", s.format)
         # compatible pairs: who wins?
         fb = s.fix.ival.to_bytes(nb, bo)
         mb = s.mask.ival.to_bytes(nb, bo)
